@@ -742,3 +742,52 @@ func (w *World) ExactCapTxs(r *verifutil.Rng, twin *Replica) []*Gen {
 	}
 	return nil
 }
+
+// RelationTxs enumerates kill transactions along the relationships the ledger currently
+// holds - stored and only PENDING delegations, invitations - signed by the entitled party
+// and by strangers (targeted complement of the random menu).
+func (w *World) RelationTxs(r *verifutil.Rng) []*Gen {
+	st := w.View().AppState.State
+	var out []*Gen
+	stranger := func(not ...common.Address) *Actor {
+		return w.pickActor(r, func(a *Actor, _ state.Identity) bool {
+			for _, n := range not {
+				if a.Addr == n {
+					return false
+				}
+			}
+			return st.GetBalance(a.Addr).Cmp(Dna(2)) > 0
+		})
+	}
+	for _, a := range w.SortedActors() {
+		if len(out) >= 6 {
+			break
+		}
+		id := st.GetIdentity(a.Addr)
+		target := a.Addr
+		if ds := st.DelegationSwitch(a.Addr); ds != nil && !ds.Delegatee.IsEmpty() && r.Intn(2) == 0 {
+			if p, ok := w.ByAddr[ds.Delegatee]; ok {
+				out = append(out, &Gen{Tx: w.Tx(p, types.KillDelegatorTx, &target, nil, nil), Kind: "relation:KillDelegator/pending-by-named-pool"})
+			}
+			if s := stranger(ds.Delegatee, a.Addr); s != nil {
+				out = append(out, &Gen{Tx: w.Tx(s, types.KillDelegatorTx, &target, nil, nil), Kind: "relation:KillDelegator/pending-by-stranger"})
+			}
+		}
+		if d := id.Delegatee(); d != nil && r.Intn(4) == 0 {
+			if s := stranger(*d, a.Addr); s != nil {
+				out = append(out, &Gen{Tx: w.Tx(s, types.KillDelegatorTx, &target, nil, nil), Kind: "relation:KillDelegator/by-stranger"})
+			}
+		}
+		if id.Inviter != nil && (id.State == state.Invite || id.State == state.Candidate) && r.Intn(3) == 0 {
+			if s := stranger(id.Inviter.Address, a.Addr); s != nil {
+				out = append(out, &Gen{Tx: w.Tx(s, types.KillInviteeTx, &target, nil, nil), Kind: "relation:KillInvitee/by-stranger"})
+			}
+		}
+		if id.Inviter == nil && (id.State == state.Invite || id.State == state.Candidate) && r.Intn(2) == 0 {
+			if s := stranger(a.Addr); s != nil {
+				out = append(out, &Gen{Tx: w.Tx(s, types.KillInviteeTx, &target, nil, nil), Kind: "relation:KillInvitee/orphan-by-stranger"})
+			}
+		}
+	}
+	return out
+}
